@@ -101,11 +101,11 @@ def path_wf(lang):
     r = (lambda n: "<%% ctx(%s) %%>" % n) if y else (lambda n: "{{ ctx('%s') }}" % n)
     res = "<% result() %>" if y else "{{ result() }}"
     ok = "<% succeeded() %>" if y else "{{ succeeded() }}"
-    return {"version": 1.0, "input": ["v"], "vars": [{"w": r("v")}, {"p": None}],
+    return {"version": 1.0, "input": ["v", {"vd": "DEFAULT"}], "vars": [{"w": r("v")}, {"p": "unset"}],
             "tasks": {"t0": {"action": "core.echo", "input": {"a": r("w"), "wrapped": {"inner": [r("w")]}},
                              "next": [{"when": ok, "publish": [{"p": res}, {"q": {"k": res}}], "do": "t1"}]},
                       "t1": {"action": "core.echo", "input": {"b": r("p"), "c": r("q")}}},
-            "output": [{"o": r("p")}, {"o2": r("q")}, {"o3": r("v")}]}
+            "output": [{"o": r("p")}, {"o2": r("q")}, {"o3": r("v")}, {"o4": r("vd")}]}
 
 
 def values(job):
@@ -153,7 +153,7 @@ def values(job):
                 cnt("path_wf_rejected")
                 continue
             ms = [m for m in workloads.monitors(dict(double_poll=False)) if m.name in ("keyscan", "status")]
-            run = explore.make_run(dict(wf=wf, inputs={"v": copy.deepcopy(v)}, oseed=0, p_fail=0.0), ms, model=None)
+            run = explore.make_run(dict(wf=wf, inputs={"v": copy.deepcopy(v), "vd": copy.deepcopy(v)}, oseed=0, p_fail=0.0), ms, model=None)
             run.outcomes.force = lambda a, vv=v: (("succeeded", copy.deepcopy(vv), True) if a["task"] == "t0" else ("succeeded", None))
             run.request("running")
             run.poll()
@@ -181,6 +181,7 @@ def values(job):
             stages["output"] = o.get("o", "<absent>")
             stages["output via mapping"] = (o.get("o2") or {}).get("k", "<absent>") if isinstance(o.get("o2"), dict) else "<absent>"
             stages["output of input"] = o.get("o3", "<absent>")
+            stages["output of input that has a default"] = o.get("o4", "<absent>")
             run.finish()
             ep.drain(run)
             cnt("path_runs")
